@@ -2,7 +2,7 @@
    system.  Definitions only. *)
 From Coq Require Import List ZArith Bool.
 Import ListNotations.
-From LC Require Import Base Tree Fp Lookup Api ApiStep Script ScanAction Tokens Lexer Parser Reader Writer FloatDec WriteFile Locale.
+From LC Require Import Base Tree Fp Lookup Api ApiStep Script ScanAction Tokens Lexer Parser Reader Writer FloatDec WriteFile Locale Cpp.
 From LC.gen Require Import Consts.
 Local Open Scope Z_scope.
 
@@ -99,7 +99,106 @@ Definition dir_exists (f : fs) (path : bytes) : bool :=
   | _ => existsb (fun e => bytes_eqb (fst e) d || is_prefix (d ++ [47]) (fst e)) f
   end.
 
-Definition run_line (w : world) (ln : bytes) : world * list bytes * bool :=
+
+Definition w_exists_ := [101;120;105;115;116;115].
+Definition w_lookup_ := [108;111;111;107;117;112].
+Definition w_path_ := [112;97;116;104].
+Definition w_info_ := [105;110;102;111].
+Definition w_iter_ := [105;116;101;114].
+Definition w_cast_ := [99;97;115;116].
+Definition w_mem_ := [109;101;109].
+Definition w_xinit := [120;105;110;105;116].
+Definition w_xreads := [120;114;101;97;100;115].
+Definition w_xreadf := [120;114;101;97;100;102].
+Definition w_xwritef := [120;119;114;105;116;101;102].
+
+(* ------------------------------------------------------------------------------------ *)
+(* the C++ operations (harness/drvxx.cc): "x..." lines *)
+
+Definition show_exn (e : exn) : bytes :=
+  match e with
+  | XNotFound => [83;101;116;116;105;110;103;78;111;116;70;111;117;110;100;69;120;99;101;112;116;105;111;110]
+  | XType => [83;101;116;116;105;110;103;84;121;112;101;69;120;99;101;112;116;105;111;110]
+  | XRange => [83;101;116;116;105;110;103;82;97;110;103;101;69;120;99;101;112;116;105;111;110]
+  | XName => [83;101;116;116;105;110;103;78;97;109;101;69;120;99;101;112;116;105;111;110]
+  | XParse f l t =>
+      [80;97;114;115;101;69;120;99;101;112;116;105;111;110;32] ++ show_hs f ++ [32] ++ show_dec l ++ [32] ++ show_hs t
+  | XFileIO => [70;105;108;101;73;79;69;120;99;101;112;116;105;111;110]
+  end.
+
+Definition show_xret (x : xret) : bytes :=
+  match x with
+  | XR r => [82;32] ++ show_ret r
+  | XT e => [82;32;116;104;114;111;119;32] ++ show_exn e          (* "R throw " *)
+  end.
+
+Definition bit (z m : Z) : bytes := if Z.land z m =? 0 then [48] else [49].
+
+Definition show_info_cpp (i : info) : bytes :=
+  [116] ++ show_dec (i_type i) ++ [32;102] ++ show_dec (i_fmt i) ++ [32;108;101;110] ++ show_dec (i_len i)
+  ++ [32;105;100;120] ++ show_dec (i_idx i) ++ [32;114;111;111;116] ++ show_dec (i_root i)
+  ++ [32;103;114;112] ++ bit (i_bits i) 1 ++ [32;97;114;114] ++ bit (i_bits i) 2
+  ++ [32;108;115;116] ++ bit (i_bits i) 4 ++ [32;97;103;103] ++ bit (i_bits i) 32
+  ++ [32;115;99;97] ++ bit (i_bits i) 16 ++ [32;110;117;109] ++ bit (i_bits i) 8
+  ++ [32;110;97;109;101] ++ show_hs (i_name i).
+Definition show_info_c (i : info) : bytes :=
+  [116] ++ show_dec (i_type i) ++ [32;102] ++ show_dec (i_fmt i) ++ [32;108;101;110] ++ show_dec (i_len i)
+  ++ [32;105;100;120] ++ show_dec (i_idx i) ++ [32;114;111;111;116] ++ show_dec (i_root i)
+  ++ [32;110;97;109;101] ++ show_hs (i_name i).
+
+Definition show_xout (o : xout) : bytes :=
+  match o with
+  | XO x => show_xret x
+  | XOInfo a b => [82;32] ++ show_info_cpp a ++ [32;124;32;99;61] ++ show_info_c b
+  | XOIter kids =>
+      [82;32;105;116] ++
+      (match kids with
+       | [] => []
+       | _ => [32] ++ join 44 (map (fun p => 110 :: show_path p) kids)
+       end) ++ [32;110;61] ++ show_dec (Z.of_nat (length kids))
+  | XOPath path back =>
+      [82;32;115] ++ show_hs (Some path) ++ [32;98;97;99;107;61] ++ show_ret (RNode back)
+  end.
+
+Definition parse_ck (s : bytes) : ck :=
+  match s with
+  | 105 :: _ => CkInt | 117 :: _ => CkUInt | 108 :: _ => CkLL | 85 :: _ => CkULL
+  | 102 :: _ => CkDouble | 98 :: _ => CkBool | _ => CkString
+  end.
+
+Definition x_ := 120.
+Definition parse_xop (ws : list bytes) : option xop :=
+  match ws with
+  | [c; a] =>
+      if is_w c (x_ :: w_exists_) then Some (XExists (hs_or_empty (parse_hs a)))
+      else if is_w c (x_ :: w_lookup_) then Some (XLookup (hs_or_empty (parse_hs a)))
+      else if is_w c (x_ :: w_path_) then Some (XPath (parse_path a))
+      else if is_w c (x_ :: w_info_) then Some (XInfo (parse_path a))
+      else if is_w c (x_ :: w_iter_) then Some (XIter (parse_path a))
+      else None
+  | [c; a; b] =>
+      if is_w c (x_ :: w_cast_) then Some (XCast (parse_ck a) (parse_path b))
+      else if is_w c (x_ :: w_look) then Some (XLook (parse_ck a) (hs_or_empty (parse_hs b)))
+      else if is_w c (x_ :: 109 :: w_exists_) then Some (XMExists (parse_path a) (hs_or_empty (parse_hs b)))
+      else if is_w c (x_ :: w_idx) then Some (XIdx (parse_path a) (parse_num b))
+      else if is_w c (x_ :: w_mem_) then Some (XMem (parse_path a) (hs_or_empty (parse_hs b)))
+      else if is_w c (x_ :: w_rm) then Some (XRm (parse_path a) (hs_or_empty (parse_hs b)))
+      else if is_w c (x_ :: w_rmi) then Some (XRmi (parse_path a) (parse_num b))
+      else if is_w c (x_ :: w_setfmt) then Some (XSetFmt (parse_path a) (parse_num b))
+      else None
+  | [c; a; b; d] =>
+      if is_w c (x_ :: w_mlook) then Some (XMLook (parse_ck a) (parse_path b) (hs_or_empty (parse_hs d)))
+      else if is_w c (x_ :: w_add) then
+        Some (XAdd (parse_path a) (match b with [45] => None | _ => Some (hs_or_empty (parse_hs b)) end) (parse_num d))
+      else if is_w c (x_ :: w_set) then
+        let k := parse_kind a in
+        Some (XSet k (parse_path b)
+                   (match k with KString => AS (Some (hs_or_empty (parse_hs d))) | _ => parse_arg k d end))
+      else None
+  | _ => None
+  end.
+
+Definition run_line_c (w : world) (ln : bytes) : world * list bytes * bool :=
   let c := w_cfg w in
   let mkW := fun c' f' => mkW_ c' f' (w_dev w) (w_loc w) in
   let mkWl := fun c' f' l' => mkW_ c' f' (w_dev w) l' in
@@ -191,6 +290,39 @@ Definition run_line (w : world) (ln : bytes) : world * list bytes * bool :=
          [[82;32;117;110;105;116]], false)
       else api tt
   | _ => api tt
+  end.
+
+
+(* "R i1"/"R i0" of a C read/write turned into the outcome of the C++ member calling it *)
+Definition x_io (r : world * list bytes * bool) : world * list bytes * bool :=
+  let '(w', out, stop) := r in
+  match out with
+  | [82;32;105;49] :: rest => (w', show_xret (XR RUnit) :: rest, stop)
+  | [82;32;105;48] :: rest => (w', show_xret (x_io_result false (w_cfg w')) :: rest, stop)
+  | _ => r
+  end.
+
+Definition run_line (w : world) (ln : bytes) : world * list bytes * bool :=
+  let ws := words ln in
+  match parse_xop ws with
+  | Some o =>
+      let '(c', out, ev) := cpp_step (w_cfg w) o in
+      (mkW_ c' (w_fs w) (w_dev w) (w_loc w), show_xout out :: map show_event ev, false)
+  | None =>
+      match ws with
+      | [cmd] =>
+          if is_w cmd w_xinit then
+            (* Config::Config(): destructor and hook registered *)
+            (mkW_ (set_chook (set_dtor (w_cfg w) true) (Some WRAPPER)) (w_fs w) (w_dev w) (w_loc w),
+             [[82;32;117;110;105;116]], false)
+          else run_line_c w ln
+      | [cmd; a] =>
+          if is_w cmd w_xreads then x_io (run_line_c w (w_reads ++ [32] ++ a))
+          else if is_w cmd w_xreadf then x_io (run_line_c w (w_readf ++ [32] ++ a))
+          else if is_w cmd w_xwritef then x_io (run_line_c w (w_writef ++ [32] ++ a))
+          else run_line_c w ln
+      | _ => run_line_c w ln
+      end
   end.
 
 Fixpoint run_lines (w : world) (ls : list bytes) : list bytes :=
